@@ -10,6 +10,7 @@ EXPLANATION = (
     "result, stale-callback guard by call id, __exit__ aborts an active generator run, unsupported backends are "
     "rejected. 'As soon as' is a timing statement (10 ms polling) and is NOT decided; completion order in "
     "unordered mode is the backend's callback order."
+    ' Every yield of the output generators lies in the region whose finally/handlers clear _running.'
 )
 ASSUMPTIONS = [
     "the pools call the completion callback at most once per submitted batch",
